@@ -42,6 +42,71 @@ CHECKS = {
          "Every irregular / uninflected word x 3 case variants x 17 boundary prefixes x both operations, fold twins, non-ASCII and random inputs; 240 (quick) / 3000 (thorough) barrier rounds of 32 goroutines at GOMAXPROCS 2/4/16 with keys fresh to each round, -race build; history checked against sequentially known values and with porcupine. Evidence reports overlapping same-key call pairs and distinct completion orders observed.",
          "Trusted: porcupine v1.3.0, the Go race detector, the prefix-preservation law taken from the statement. Word boundary = ASCII punctuation/space as in the statement.",
          "DESIGN.md 4/C20"),
+ "C01": ("exploration",
+         "runtime monitor over real Execute runs: seeded modules x scripted generators rendering 30 declaration shapes; each written file judged by go/parser, token-stream comparison with the independently formatted rendered text, go/format + gofumpt fixed-point checks, gofmt -l and go build",
+         "48 (quick) / ~1500 (thorough) seeded modules (3 module paths, 7 go directives, 1-3 packages, package name != dir) are generated by the real Execute with three scripted generators; every written file must parse, open with a comment naming its generator, carry the target's package clause, preserve the rendered declarations at token level, be a fixed point of go/format and gofumpt for the module's language version, and the module must build. Held on the files observed.",
+         "Trusted: go/parser, go/scanner, go/format, mvdan.cc/gofumpt (the same libraries gengo links, applied to the harness's own assembly), the Go compiler.",
+         "DESIGN.md 4/C01"),
+ "C02": ("fault_enumeration",
+         "fault injection with enumeration of every fault point per scenario: generator errors / unparseable output / swallowed sentinels in-process, process death by SIGKILL in a child process at every generator callback and every verif hook point; oracles over tree snapshots, error text and follow-up runs",
+         "For each scenario (3 quick / 32 thorough) EVERY fault point is executed: error at each GenerateType index, each deferred callback, unparseable rendering, alias error, wrapped ErrSkip/ErrIgnore, 'skip'-text error, unwritable destination, panic, and SIGKILL inside each GenerateType / callback and at the n-th hit of every internal point. Checked: error text, failing file byte-identical, gengo.sum byte-identical, allow-set, written files parse, follow-up run regenerates, recovery to the uninterrupted-run tree.",
+         "Process death = SIGKILL of the gengo process; file-system crash consistency (unsynced data) is not modelled. Trusted: the verif hook's placement, sha256 snapshots.",
+         "DESIGN.md 4/C02"),
+ "C04": ("exploration",
+         "metamorphic runtime monitor: the same adversarial module generated repeatedly in-process (fresh map orders per load), in fresh child processes, under every entrypoint permutation and again on its own result; outputs and call sequences compared byte for byte",
+         "Per module (8 quick / ~150 thorough; >= 6 name clashes each): 5-7 in-process repetitions + 2-3 fresh processes + 10 entrypoint permutations/duplications from byte-identical restored trees at the same path, plus second and third runs on the result; all generated files, gengo.sum and the ordered GenerateType call log must be identical, and re-runs must change no generated file. An order dependence of the D11 kind escapes a module with probability < 2^-30.",
+         "Trusted: byte comparison. The observing generator's own iteration is sorted; it ignores what generated files add to the package (no feedback).",
+         "DESIGN.md 4/C04"),
+ "C05": ("exploration",
+         "metamorphic runtime monitor: files of package P from a run of {P} alone compared byte for byte with P's files from every run of a superset (all 15 subsets x 2 orders, All runs), with stateful generators built to expose leaked per-package state",
+         "Modules of 4 packages sharing type names, with a counting-New stateful generator, a prototype-without-New generator carrying non-zero state, the real runtimedoc and deepcopy generators and per-package import sets whose names clash across packages; for every subset/order/All run each package's files must equal its alone-run files, New calls must equal executed packages, the prototype must never be used.",
+         "Trusted: byte comparison; restored trees are byte-identical.",
+         "DESIGN.md 4/C05"),
+ "C06": ("exploration",
+         "online event-log monitor against a reference model: recording generators + verif hook produce an ordered log of real Execute runs over synthetic packages; the expected call multiset and Defer ordering come from an independent tag-precedence/enablement model computed from the source the harness wrote",
+         "32 (quick) / ~1000 (thorough) synthetic modules with every declaration kind and tags at global / package / declaration level (plus decoys in detached and trailing comments), five generators with prefix-related names; observed GenerateType/GenerateAliasType multiset must equal the model's, every call must concern a package-scope type of the processed package, every deferred callback runs once, after the last GenerateType, before the first write, seeing the old file, with its marker in the final file.",
+         "Trusted: the 20-line enablement model (statement), the synth generator's bookkeeping of what it wrote.",
+         "DESIGN.md 4/C06"),
+ "C07": ("exploration",
+         "tree-snapshot monitor (sha256+mode of every path before/after real Execute runs) over seeded layouts x behaviour matrices, plus strace -f syscall logs of child-process runs in the thorough tier",
+         "50 (quick) / ~1600 (thorough) configurations: look-alikes, stale outputs, unselected packages, three base names, All on/off, 7 behaviours per (package, generator), previous outputs; changed paths must be own outputs of executed packages (+gengo.sum iff All), file-exists-iff-rendered, ErrIgnore keeps bytes, stale members removed. Thorough: 96 runs under strace, no mutating syscall under the module outside the allow-set.",
+         "Trusted: sha256 snapshots, strace's view of syscalls. Non-Go <base>.* files may be kept or removed.",
+         "DESIGN.md 4/C07"),
+ "C08": ("exploration",
+         "model-based runtime monitor: enumerated and random histories of edits / cache manipulations / runs are executed against the real code; after every run the observed executed/cached sets and gengo.sum are compared with a reference state machine (own Hash1 implementation)",
+         "All single operations (8 edit kinds x packages, 7 sum-file corruptions) followed by each of 5 run kinds from 3 start states, with/without a root package (704 histories quick), plus random histories up to length 10/14: cached(p) implies not Force, readable sum, entry == H(p at load), H != empty; completeness; sum file content and read-back after success; unchanged after failure / non-All; convergence within 3 further runs.",
+         "Trusted: the harness's Hash1 (written from the h1: definition), hook events cross-checked with generator New logs. 'unchanged => cached' only at convergence.",
+         "DESIGN.md 4/C08"),
+ "C12": ("exploration",
+         "differential runtime monitor: source files generated from a layout grammar (every adjacency of doc / detached / trailing comments) are loaded by the real types.Load; Doc/Comment of every object compared with expectations derived from the layout; ExtractCommentTags vs a reference splitter",
+         "40 (quick) / ~600 (thorough) packages x 2 files of types, fields, consts, vars (grouped and ungrouped) with 8 doc shapes x 3 trailing shapes and unique markers; ~3300 / ~70000 declarations compared (doc lines, tag map, trailing lines); 48000 / 480000 random tag line lists against the reference splitter.",
+         "Trusted: go list / go/packages, go/types scopes to find the objects; comment text avoids what go/ast's Text() normalises.",
+         "DESIGN.md 4/C12"),
+ "C13": ("exploration",
+         "differential runtime monitor: every accessor of every package of the real dependency closure (~200 packages, loaded repeatedly) and of synthetic modules compared with the go/types universe of the same load",
+         "Per package: Types/Constants/Functions tables vs Scope() (names and object identity), lookups, probes of every function-local declaration and type parameter found in the syntax, MethodsOf vs Named.Method (generic, alias receivers, interfaces), Imports() vs Package.Imports() with identity to Universe.Package, LocateInPackage/SourceDir for module packages. 2 (quick) / 10 (thorough) corpus loads + 90 / 2400 synthetic packages.",
+         "Trusted: go/types of the same load.",
+         "DESIGN.md 4/C13"),
+ "C14": ("exploration",
+         "supervised execution monitor: ResultsOf called for every function of the real dependency closure (~11 000) and of generated adversarial packages inside worker processes with a 64 MiB stack cap and per-function begin markers (fatal errors attributed, batch resumed); soundness judged by go/types assignability, exactness on literal-only functions",
+         "Corpus (11 250 functions) + 2200 (quick) / ~60 000 (thorough) generated functions (recursion at every result index, mutual / 3-cycles, closures with fewer/equal/more/permuted results, named results, forwarding, interfaces, generics, curried calls) + cross-package queries: no panic/fatal error, n lists, non-empty, alternatives assignable, stable; literal-only functions exact in source order.",
+         "Termination is restated as 'returns inside a 64 MiB stack'; a generous watchdog yields inconclusive. Trusted: types.AssignableTo.",
+         "DESIGN.md 4/C14"),
+ "C16": ("exploration",
+         "compiled-and-executed check program as oracle: seeded documented packages run through the real runtimedoc generator; a generated in-package test calls RuntimeDoc for every type / field / delegation / negative query and compares with the text the harness wrote",
+         "64 (quick) / ~770 (thorough) packages with hostile doc text (quotes, backslashes, backquotes, %, @, Unicode, tabs, blank lines, tag lines, leading names, block comments, trailing-comment decoys), generic and embedding structs: must compile; type docs, field docs, delegated fields, unlisted / unknown names all compared.",
+         "Trusted: the Go compiler; expectation derivation (tag lines removed, leading name trimmed) follows the statement. Embedded pointers are non-nil; no [[embed]] syntax.",
+         "DESIGN.md 4/C16"),
+ "C17": ("exploration",
+         "compiled-and-executed check program as oracle: seeded type graphs run twice through the real deepcopy generator (byte comparison of run 1 vs run 2), compiled, and exercised by a generated test that fills, copies, mutates every reachable container of the copy and compares the original with an independent clone",
+         "32 (quick) / ~640 (thorough) packages of 8-14 types in the stated domain: nil copies, DeepEqual for DeepCopy and DeepCopyInto, no sharing after append/assign into every slice/map at any by-value nesting depth (thousands of mutations counted), first run == second run, package builds.",
+         "Trusted: the Go compiler, reflect.DeepEqual, the reflection-based filler/cloner/mutator. Out-of-domain shapes are not generated.",
+         "DESIGN.md 4/C17"),
+ "C18": ("exploration",
+         "compiled-and-executed check program as oracle: seeded origin structs x omit/replace sets run through the real partialstruct generator; a generated test reflects over generated vs origin struct and exercises DeepCopyAs; negative declarations must be rejected with an error and no file",
+         "64 (quick) / ~640 (thorough) packages of 1-4 partial structs (ungrouped and grouped): field names/order/types/tags mirror the origin minus omitted, replaced fields use the replacement type, nil copy, retained fields DeepEqual, omitted fields zero; 5 negative shapes rejected naming generator and package, no file written.",
+         "Trusted: the Go compiler, reflect. Origin fields exported and not embedded.",
+         "DESIGN.md 4/C18"),
 }
 
 NOT_YET = {}
